@@ -128,10 +128,6 @@ class Field:
     __slots__ = ('name', 'row', 'acc', 'vparams', 'iparams', 'shape', 'layout', 'elem_words', 'index_values',
                  'stride', 'problems', 'enum_values')
 
-    def words_at(s, index):
-        base = s.row[1] + (index * s.stride if s.iparams else 0)
-        return base
-
 
 def classify_shape(vtypes, ctx):
     """shape of the value parameters of a setter, from the Rust parameter types only"""
@@ -1020,11 +1016,6 @@ def build_context(binary):
     return {e: ExpCtx(e, api[e], table[v], corpus, counts[e]) for e, v in EXPS.items()}
 
 
-def chunks(lst, n):
-    for i in range(0, len(lst), n):
-        yield lst[i:i + n]
-
-
 def run(tier, replay=None):
     chk = common.Check('C13', tier, 'exploration',
                        'operation sequences (typed setters in builder and &mut form, getters, dirty_reset, mark_fully_dirty, '
@@ -1049,7 +1040,7 @@ def run(tier, replay=None):
     else:
         quick = tier == 'quick'
         n_random = 300 if quick else 20000
-        depth, bdepth = (3, 2) if quick else (4, 3)
+        depth, bdepth = (3, 2) if quick else (4, 4)
         combos = [(e, kd) for e in ctx for kd in ctx[e].kinds]
         per = max(1, -(-n_random // max(1, len(combos))))
         reps = {}
@@ -1063,7 +1054,7 @@ def run(tier, replay=None):
             reps[f'{e}.{kd}'] = {tag: f.name + ('' if idx is None else f'[{idx}]') + f'@{k.base(f, idx)}' for tag, (f, idx) in rep.items()}
             for start, dmax in (('new', depth), ('builder', bdepth)):
                 for d in range(1, dmax + 1):
-                    if d == dmax and start == 'new' and d >= 3:
+                    if d == dmax and d >= 3:
                         for first in range(len(alpha)):
                             big.append((e, kd, ('exh', start, d, first), f'{e}.{kd}.x{start[0]}{d}.{first}'))
                     else:
@@ -1099,8 +1090,9 @@ def run(tier, replay=None):
         chk.count(chk.violation(obs, {'seq': {'id': f'static.{exp}.{kind}.0'}, 'detail': det,
                                       'driver_cmd': 'python3 check.py C13 --replay <this file>'}))
     if replay and not chk.violations and not chk.known_hits:
-        chk.ok(('replay', 'held'))
-        chk.ok(('replay', 'held', 2))
+        # a single re-judged case: the verdict needs the sequence and its step count as the two distinct facts
+        chk.ok(('replay', rp['seq']['id']))
+        chk.ok(('replay-steps', stats.get('steps', 0)))
     for key, v in sorted(stats.items()):
         chk.counts[key] = v
     if infra:
